@@ -52,7 +52,7 @@ Print Assumptions C12_onetomany_neq.
 
 (* ---------- identity instances: a transformation configured to match nothing changes nothing ---------- *)
 (* scope (detection item / field name conditions) that matches no detection item *)
-Theorem C12_identity_scope : forall c t r, is_addcond t = false -> afn_of t = None ->
+Theorem C12_identity_scope : forall c t r, is_addcond t = false -> is_rule_level t = false -> afn_of t = None ->
   (forall i, im_of c i = false) -> apply_tspec c t r = r.
 Proof. exact identity_scope. Qed.
 Print Assumptions C12_identity_scope.
@@ -159,6 +159,24 @@ Theorem C12_extract_negated_refuted :
   exists asg c t r, meanings asg (apply_tspec c t r) <> doc_meanings asg (rewrite_tspec c t (rdocs_of r)).
 Proof. exact extract_negated_refuted. Qed.
 Print Assumptions C12_extract_negated_refuted.
+
+(* ---------- rule-level attributes ---------- *)
+(* change_logsource sets exactly the given attributes (omitted ones are cleared) and nothing else *)
+Theorem C12_change_logsource : forall c c0 p s r,
+  let r' := apply_tspec c (TChangeLogsource c0 p s) r in
+  a_logsource (r_attrs r') = (c0, (p, s)) /\ r_dets r' = r_dets r /\ r_cond r' = r_cond r /\ r_fields r' = r_fields r /\
+  a_custom (r_attrs r') = a_custom (r_attrs r) /\ a_state (r_attrs r') = a_state (r_attrs r).
+Proof. exact change_logsource_exact. Qed.
+Print Assumptions C12_change_logsource.
+
+(* log source {category: pc, product: win}; change_logsource service: sys; field_name_prefix scoped by the rule
+   condition logsource product: win does not apply any more *)
+Theorem C12_change_logsource_follower :
+  rules_consistent [PItem no_conds (TChangeLogsource None None (Some [115%N; 121%N; 115%N])); PItem c_win (TPrefix [119%N; 46%N])] ls_rule = true /\
+  r_dets (apply_pipeline [PItem no_conds (TChangeLogsource None None (Some [115%N; 121%N; 115%N])); PItem c_win (TPrefix [119%N; 46%N])] ls_rule)
+  = r_dets ls_rule.
+Proof. exact change_logsource_follower_example. Qed.
+Print Assumptions C12_change_logsource_follower.
 
 (* non-vacuity: the premises are met by a rule with a keyword list, a negated item and nested lists *)
 Example C12_premises_inhabited :
